@@ -13,7 +13,7 @@ tie    : T  translate/t_eig.py regenerates coq/gen/EigSelect.v (which eigenpairs
             (ii)  oracle contracts on every probe: Eigen::SelfAdjointEigenSolver reads the lower triangle,
                   ascending, orthonormal; DenseMatrixOperation multiplies by the upper-triangle view;
                   tapkee's dense / randomized front-ends decompose what the model says they see;
-            (iii) public API: P and the mean are read back from the returned projection; decision
+            (iii) embed() of the implementation classes (as the dispatcher instantiates them): P and the mean are read back from the returned projection; decision
                   procedures on the implementation's own outputs: P^T P = I, C P = P diag(top-d reference
                   eigenvalues) for the EXACT rational covariance C of the model, embedding = (X - mean) P,
                   Y^T Y / N = diag(lambda), retained variance = sum of the d largest eigenvalues and not
@@ -46,7 +46,9 @@ TRUSTED = [
     "binary64) decide WHICH eigenvalues are the d largest",
     "translate/t_eig.py (selection expressions of the solver front-ends, owned by C05) -> coq/gen/EigSelect.v",
     "extraction (ExtrOcamlBasic only) + OCaml 4.13.1 + coq/extract/c06_driver.ml (parsing/printing of rationals)",
-    "harness/c06.cpp + harness/spectral_common.hpp (hex-float transport)",
+    "harness/c06.cpp + harness/spectral_common.hpp (hex-float transport); PCA / Kernel PCA / MDS are run by "
+    "instantiating X##Implementation(ImplementationBase(...)).validate(); .embed() directly (the body of the "
+    "dispatcher macro) to keep the build within budget; the dispatch through tapkee::embed is exercised by C07",
     "IEEE rounding: exact only on the dyadic covariance stream; everything downstream of the eigen solver is "
     "checked by exact rational decision procedures with a tolerance (tolerance stream)",
     "uniqueness of eigenvectors up to sign for simple eigenvalues (PCA = KPCA = MDS up to sign) is classical "
